@@ -417,11 +417,11 @@ fn strategy() -> BoxedStrategy<C08Case> {
 		queue_sleep,
 		hook,
 	});
-	let general = (proptest::collection::vec(job, 0..5), proptest::option::weighted(0.6, prop_oneof![Just(0u16), Just(100), Just(400), Just(900)]), proptest::bool::weighted(0.25))
-		.prop_map(|(jobs, graceful, same_action)| {
+	let general = (proptest::collection::vec(job, 0..5), proptest::option::weighted(0.6, prop_oneof![Just(0u16), Just(100), Just(400), Just(900)]), (proptest::bool::weighted(0.25), proptest::bool::weighted(0.4)))
+		.prop_map(|(jobs, graceful, (same_action, force))| {
 			let spread = !same_action && jobs.len() % 2 == 0;
-			// a third of the graceful quits use SIGKILL as the quit signal
-			let quit_force = graceful.is_some() && (jobs.len() + usize::from(graceful.unwrap_or(0) / 100)) % 3 == 0;
+			// two fifths of the graceful quits use SIGKILL as the quit signal
+			let quit_force = graceful.is_some() && force;
 			C08Case { jobs, graceful, same_action, spread, quit_force }
 		});
 	// several jobs that all need their full grace period: the periods must run concurrently
@@ -586,7 +586,7 @@ pub fn check(e: &Engine) {
 		LegOpts::realtime(
 			e.tier.pick(220, 4_000),
 			16,
-			"0-4 jobs (plain / grouped / session; command exits on the signal, ignores it, or forks a group member that ignores / exits) in states never-started, running, finished, running with an armed grace timer (stop or try-restart), deleted; handle clones held outside, queued sleeps; abort or graceful quit (grace 0-900 ms, with SIGTERM or - a third of the graceful quits - SIGKILL as the quit signal, after which no group member may be left either), optionally requested in the same action that created the jobs, or with every job created in an action of its own on a 4-worker runtime (up to 8 jobs); non-trivial = >=1 job running at the quit and (armed timer | signal-ignoring command | held clone | quit in the creating action)",
+			"0-4 jobs (plain / grouped / session; command exits on the signal, ignores it, or forks a group member that ignores / exits) in states never-started, running, finished, running with an armed grace timer (stop or try-restart), deleted; handle clones held outside, queued sleeps; abort or graceful quit (grace 0-900 ms, with SIGTERM or - two fifths of the graceful quits - SIGKILL as the quit signal, after which no group member may be left either), optionally requested in the same action that created the jobs, or with every job created in an action of its own on a 4-worker runtime (up to 8 jobs); non-trivial = >=1 job running at the quit and (armed timer | signal-ignoring command | held clone | quit in the creating action)",
 		),
 		&strategy,
 		&run,
